@@ -64,6 +64,7 @@ def run(tier):
     graph_probe(R, 60 if tier == 'quick' else 400)
     from harness import probes
     probes.discriminator_probe(R, {'mutation'})
+    probes.stdlib_invalid_probe(R)
     bad_model = P.check("C03_model", C_MODEL)
     if bad_model and not R.violations:
         for c in bad_model[:5]:
